@@ -39,6 +39,7 @@ import (
 	"github.com/bluenviron/mediamtx/internal/servers/srt"
 	"github.com/bluenviron/mediamtx/internal/servers/webrtc"
 	"github.com/bluenviron/mediamtx/internal/upgrade"
+	"github.com/bluenviron/mediamtx/internal/verifhook"
 )
 
 //go:generate go run ./versiongetter
@@ -1275,7 +1276,11 @@ func (p *Core) closeResources(newConf *conf.Conf) {
 func (p *Core) reloadConf(newConf *conf.Conf) error {
 	oldLogger := p.logger
 
+	verifhook.Point("core.reloadConf.enter")
+
 	p.closeResources(newConf)
+
+	verifhook.Point("core.reloadConf.beforeStore")
 
 	p.conf.Store(newConf)
 
